@@ -5,14 +5,15 @@ From PV Require Import Lib.Common Model.C17_Sampling Proofs.C17_Sampling.
 
 (** * stochastic universal sampling *)
 
-(** Ideal (exact-rational) pointers: for every non-negative weight vector with positive sum, every order in which the
-    elements are laid out (in particular every tie-breaking of the descending sort), every k >= 1, every offset in
-    [0, tot/k) and every shuffle permutation, the call returns exactly k draws, element i is drawn floor or ceiling
-    of its expected count p_i*k/tot times, and an element of zero weight is never drawn. *)
+(** Ideal (exact-rational) pointers: for every non-negative weight vector with positive sum, every descending layout of
+    the elements (every tie-breaking of the sort), every k >= 0, every offset in [0, tot/k) and every shuffle
+    permutation, the call returns exactly k draws, element i is drawn floor or ceiling of its expected count
+    p_i*k/tot times, and an element of zero weight is never drawn. *)
 Theorem C17_sus_count_floor_ceil_no_zero_weight :
   forall (p : list Q) (order : list nat) (k : nat) (off : Q) (perm : list nat),
-  Forall (fun x => 0 <= x) p -> 0 < sumQ p -> Permutation order (seq 0 (length p)) -> (0 < k)%nat ->
-  0 <= off -> off < sumQ p / inject_Z (Z.of_nat k) -> Permutation perm (seq 0 k) ->
+  Forall (fun x => 0 <= x) p -> 0 < sumQ p -> Permutation order (seq 0 (length p)) ->
+  nonincr (gather 0 p order) = true ->
+  ((0 < k)%nat -> 0 <= off /\ off < sumQ p / inject_Z (Z.of_nat k)) -> Permutation perm (seq 0 k) ->
   exists sel, sus_q p order k off perm = Some sel /\ length sel = k /\
     forall i, (i < length p)%nat ->
       (Qfloor (nth i p 0 * inject_Z (Z.of_nat k) / sumQ p)%Q <= Z.of_nat (count_nat i sel)
@@ -30,57 +31,128 @@ Theorem C17_sus_walk_cell_count : forall (cs ptrs : list Q) (j : nat),
 Proof. exact walk_count. Qed.
 Print Assumptions C17_sus_walk_cell_count.
 
-(** Any pointers, partial form of "never an element of zero weight" that also holds for the binary64 pointers: a position
-    whose cumulative weight equals the previous one is never selected, provided — when it is the last position — every
-    pointer stays strictly below the total (the guard the rounded last pointer of [C17_sus_float_zero_weight_refuted] breaks) *)
-Theorem C17_sus_zero_weight_partial : forall (cs ptrs : list Q) (j : nat),
-  StronglySorted Qle cs -> StronglySorted Qle ptrs -> (1 <= j < length cs)%nat ->
-  nth j cs 0 == nth (j - 1) cs 0 ->
-  (j = (length cs - 1)%nat -> Forall (fun p => p < nth j cs 0) ptrs) ->
-  count_nat j (sus_walk cs 0 ptrs) = 0%nat.
-Proof. exact walk_zero_cell. Qed.
-Print Assumptions C17_sus_zero_weight_partial.
+(** binary64 model, full strength (since commit eabf766a): "never an element of zero weight" holds for the pointers and
+    cumulative sums exactly as the code computes them in binary64, whatever the rounding, for every offset (no range
+    assumption), every k and every shuffle: every selected element has positive weight *)
+Theorem C17_sus_float_no_zero_weight : forall (p : list float) order k off perm sel,
+  let pq := map f2q p in
+  Forall (fun x => 0 <= x) pq -> 0 < sumQ pq -> Permutation order (seq 0 (length p)) ->
+  nonincr (gather 0 pq order) = true -> Permutation perm (seq 0 k) ->
+  sus_f p order k off perm = Some sel ->
+  (forall i, In i sel -> (i < length p)%nat /\ 0 < nth i pq 0) /\
+  (forall i, nth i pq 0 == 0 -> count_nat i sel = 0%nat).
+Proof. exact sus_f_no_zero_weight. Qed.
+Print Assumptions C17_sus_float_no_zero_weight.
 
-(** binary64 model: exactly k draws for every non-empty weight vector, whatever the rounding (the defect repaired in
-    commit 2efef9f2 was a wrong number of pointers) *)
+(** binary64 model: exactly k draws for every output size k >= 0 (a non-empty weight vector is needed only for k > 0),
+    whatever the rounding (the defect repaired in commit 2efef9f2 was a wrong number of pointers, the one repaired in
+    commit f3dafbe4 an exception for k = 0) *)
 Theorem C17_sus_float_count : forall (p : list float) order k off perm,
-  p <> [] -> (0 < k)%nat -> length perm = k -> length order = length p ->
+  ((0 < k)%nat -> p <> []) -> length perm = k -> length order = length p ->
   exists sel, sus_f p order k off perm = Some sel /\ length sel = k.
 Proof. exact sus_f_count. Qed.
 Print Assumptions C17_sus_float_count.
+
+(** an output size of zero gives the empty selection, for all other arguments, in both models *)
+Theorem C17_sus_size_zero_empty :
+  (forall (p : list float) order off perm, sus_f p order 0 off perm = Some []) /\
+  (forall (p : list Q) order off perm, sus_q p order 0 off perm = Some []).
+Proof. split; [exact sus_f_size_zero | exact sus_q_size_zero]. Qed.
+Print Assumptions C17_sus_size_zero_empty.
 
 (** binary64 model, partial: when the cumulative sums are exact and every binary64 pointer falls into the same cell as the
     ideal pointer, the binary64 selection is the ideal selection (to which the first theorem applies) *)
 Theorem C17_sus_float_partial : forall (p : list float) order k off perm,
   let pq := map f2q p in
-  let cs := cumsum (gather 0 pq order) in
-  Forall2 Qeq (map f2q (fcumsum (gather 0%float p order))) cs ->
-  (0 < k)%nat -> 0 <= sumQ pq / inject_Z (Z.of_nat k) ->
+  let cs := firstn (npos pq) (cumsum (gather 0 pq order)) in
+  Forall2 Qeq (map f2q (fcumsum (gather 0%float p order))) (cumsum (gather 0 pq order)) ->
+  0 <= sumQ pq / inject_Z (Z.of_nat k) ->
   StronglySorted Qle (map f2q (sus_ptrs_f (fsum p) k off)) ->
   Forall2 (fun a b => locate cs a = locate cs b) (map f2q (sus_ptrs_f (fsum p) k off)) (sus_ptrs_q (sumQ pq) k (f2q off)) ->
   sus_f p order k off perm = sus_q pq order k (f2q off) perm.
 Proof. exact sus_f_partial. Qed.
 Print Assumptions C17_sus_float_partial.
 
+(** binary64 model, what IS guaranteed in place of floor/ceiling (which fails, see the next theorem): when the binary64
+    cumulative sums and pointers are non-decreasing and stay within dc resp. dp of the exact ones, with 2(dp+dc) below the
+    exact pointer distance tot/k, and the offset lies in [0, tot/k + dp + dc), every element is drawn at least floor - 1
+    and at most ceiling + 1 of its expected count times (and exactly k draws are returned).  The bound is attained by the
+    counterexample of the next theorem.  These numerical hypotheses are evaluated inside Coq for every generated case
+    ([sus_near], dp = dc = tot/(8k); [C17_sus_near_sound]). *)
+Theorem C17_sus_float_within_one : forall (p : list float) order k off perm (dp dc : Q),
+  let pq := map f2q p in
+  Forall (fun x => 0 <= x) pq -> 0 < sumQ pq -> Permutation order (seq 0 (length p)) ->
+  nonincr (gather 0 pq order) = true -> (0 < k)%nat -> Permutation perm (seq 0 k) ->
+  0 <= dp -> 0 <= dc -> 2 * (dp + dc) < sumQ pq / inject_Z (Z.of_nat k) ->
+  0 <= f2q off -> f2q off < sumQ pq / inject_Z (Z.of_nat k) + (dp + dc) ->
+  StronglySorted Qle (map f2q (fcumsum (gather 0%float p order))) ->
+  StronglySorted Qle (map f2q (sus_ptrs_f (fsum p) k off)) ->
+  Forall2 (fun a b => b - dc <= a /\ a <= b + dc) (map f2q (fcumsum (gather 0%float p order))) (cumsum (gather 0 pq order)) ->
+  Forall2 (fun a b => b - dp <= a /\ a <= b + dp) (map f2q (sus_ptrs_f (fsum p) k off)) (sus_ptrs_q (sumQ pq) k (f2q off)) ->
+  exists sel, sus_f p order k off perm = Some sel /\ length sel = k /\
+    forall i, (i < length p)%nat ->
+      (Qfloor (nth i pq 0 * inject_Z (Z.of_nat k) / sumQ pq)%Q - 1 <= Z.of_nat (count_nat i sel)
+       <= Qceiling (nth i pq 0 * inject_Z (Z.of_nat k) / sumQ pq)%Q + 1)%Z.
+Proof. exact sus_f_within_one. Qed.
+Print Assumptions C17_sus_float_within_one.
+
+(** the same for arbitrary perturbed pointers and boundaries (exact rationals), at the level of positions of the walk *)
+Theorem C17_sus_walk_within_one : forall (w : list Q) (tot : Q) (k : nat) (off dp dc : Q) (cs' ptrs' : list Q) (j : nat),
+  Forall (fun x => 0 <= x) w -> tot == sumQ w -> 0 < tot -> (0 < k)%nat ->
+  0 <= dp -> 0 <= dc -> 2 * (dp + dc) < tot / inject_Z (Z.of_nat k) ->
+  0 <= off -> off < tot / inject_Z (Z.of_nat k) + (dp + dc) -> (j < length w)%nat ->
+  StronglySorted Qle cs' -> StronglySorted Qle ptrs' ->
+  Forall2 (fun a b => b - dc <= a /\ a <= b + dc) cs' (cumsum w) ->
+  Forall2 (fun a b => b - dp <= a /\ a <= b + dp) ptrs' (sus_ptrs_q tot k off) ->
+  (Qfloor (nth j w 0 * inject_Z (Z.of_nat k) / tot)%Q - 1
+   <= Z.of_nat (count_nat j (sus_walk cs' 0%nat ptrs'))
+   <= Qceiling (nth j w 0 * inject_Z (Z.of_nat k) / tot)%Q + 1)%Z.
+Proof. exact walk_robust. Qed.
+Print Assumptions C17_sus_walk_within_one.
+
+(** the check evaluated for every generated case implies the numerical hypotheses of [C17_sus_float_within_one]
+    with dp = dc = e (2(e+e) = tot/(2k) < tot/k whenever tot > 0) *)
+Theorem C17_sus_near_sound : forall (p : list float) order k off, (0 < k)%nat -> sus_near p order k off = true ->
+  let pq := map f2q p in let e := sumQ pq / inject_Z (Z.of_nat k) / 8 in
+  0 <= e /\ 0 <= f2q off /\ f2q off < sumQ pq / inject_Z (Z.of_nat k) + (e + e) /\
+  StronglySorted Qle (map f2q (fcumsum (gather 0%float p order))) /\
+  StronglySorted Qle (map f2q (sus_ptrs_f (fsum p) k off)) /\
+  Forall2 (fun a b => b - e <= a /\ a <= b + e) (map f2q (fcumsum (gather 0%float p order))) (cumsum (gather 0 pq order)) /\
+  Forall2 (fun a b => b - e <= a /\ a <= b + e) (map f2q (sus_ptrs_f (fsum p) k off)) (sus_ptrs_q (sumQ pq) k (f2q off)).
+Proof. exact sus_near_sound. Qed.
+Print Assumptions C17_sus_near_sound.
+
 (** binary64 model, refuted: floor/ceiling fails for p = [1,1], k = 98, offset 0.0 (50 and 48 draws; expected 49, 49) *)
 Theorem C17_sus_float_floor_ceil_refuted :
   exists (p : list float) (order : list nat) (k : nat) (off : float) (perm sel : list nat) (i : nat),
-    Forall (fun x => 0 <= f2q x) p /\ 0 < sumQ (map f2q p) /\ Permutation order (seq 0 (length p)) /\ (0 < k)%nat /\
+    Forall (fun x => 0 <= f2q x) p /\ 0 < sumQ (map f2q p) /\ Permutation order (seq 0 (length p)) /\
+    nonincr (gather 0 (map f2q p) order) = true /\ (0 < k)%nat /\
     0 <= f2q off /\ f2q off < sumQ (map f2q p) / inject_Z (Z.of_nat k) /\ PrimFloat.ltb off (sus_dist_f (fsum p) k) = true /\
     Permutation perm (seq 0 k) /\ sus_f p order k off perm = Some sel /\ (i < length p)%nat /\
     (Qceiling (nth i (map f2q p) 0 * inject_Z (Z.of_nat k) / sumQ (map f2q p))%Q < Z.of_nat (count_nat i sel))%Z.
 Proof. exact sus_f_floor_ceil_refuted. Qed.
 Print Assumptions C17_sus_float_floor_ceil_refuted.
 
-(** binary64 model, refuted: a zero-weight element is drawn for p = [2.5,1,0], k = 4, offset = 0.875*(1-2^-53) *)
-Theorem C17_sus_float_zero_weight_refuted :
+(** the code before commit eabf766a ([old_sus_f], regression witness): a zero-weight element was drawn for p = [2.5,1,0],
+    k = 4, offset = 0.875*(1-2^-53); the repaired code [sus_f] does not draw it on the same input *)
+Theorem C17_sus_old_zero_weight_refuted :
   exists (p : list float) (order : list nat) (k : nat) (off : float) (perm sel : list nat) (i : nat),
-    Forall (fun x => 0 <= f2q x) p /\ 0 < sumQ (map f2q p) /\ Permutation order (seq 0 (length p)) /\ (0 < k)%nat /\
+    Forall (fun x => 0 <= f2q x) p /\ 0 < sumQ (map f2q p) /\ Permutation order (seq 0 (length p)) /\
+    nonincr (gather 0 (map f2q p) order) = true /\ (0 < k)%nat /\
     0 <= f2q off /\ f2q off < sumQ (map f2q p) / inject_Z (Z.of_nat k) /\ PrimFloat.ltb off (sus_dist_f (fsum p) k) = true /\
-    Permutation perm (seq 0 k) /\ sus_f p order k off perm = Some sel /\ (i < length p)%nat /\
-    nth i (map f2q p) 0 == 0 /\ (0 < count_nat i sel)%nat.
-Proof. exact sus_f_zero_weight_refuted. Qed.
-Print Assumptions C17_sus_float_zero_weight_refuted.
+    Permutation perm (seq 0 k) /\ old_sus_f p order k off perm = Some sel /\ (i < length p)%nat /\
+    nth i (map f2q p) 0 == 0 /\ (0 < count_nat i sel)%nat /\
+    exists sel', sus_f p order k off perm = Some sel' /\ count_nat i sel' = 0%nat.
+Proof. exact sus_old_zero_weight_refuted. Qed.
+Print Assumptions C17_sus_old_zero_weight_refuted.
+
+(** the code before commit f3dafbe4 ([old_sus_f], regression witness): an output size of zero raised an exception *)
+Theorem C17_sus_old_size_zero_refuted :
+  exists (p : list float) (order : list nat) (off : float) (perm : list nat),
+    p <> [] /\ Permutation order (seq 0 (length p)) /\ Permutation perm (seq 0 0) /\
+    old_sus_f p order 0 off perm = None /\ sus_f p order 0 off perm = Some [].
+Proof. exact sus_old_size_zero_refuted. Qed.
+Print Assumptions C17_sus_old_size_zero_refuted.
 
 (** the code before commit 2efef9f2 (documentation of the repaired defects): strict comparison with offset 0 ... *)
 Theorem C17_sus_offset0_refuted :
@@ -163,7 +235,8 @@ Print Assumptions C17_outcross_terminates.
 Example C17_hyps_satisfiable :
   (* sus: weights [1/2; 0; 3; 3/2] (a zero, no ties), order by descending weight, k = 4, offset 1/4 *)
   (Forall (fun x => 0 <= x) [1#2; 0; 3; 3#2] /\ 0 < sumQ [1#2; 0; 3; 3#2] /\
-   Permutation [2; 3; 0; 1]%nat (seq 0 4) /\ 0 <= 1#4 /\ (1#4) < sumQ [1#2; 0; 3; 3#2] / inject_Z 4 /\
+   Permutation [2; 3; 0; 1]%nat (seq 0 4) /\ nonincr (gather 0 [1#2; 0; 3; 3#2] [2; 3; 0; 1]%nat) = true /\
+   0 <= 1#4 /\ (1#4) < sumQ [1#2; 0; 3; 3#2] / inject_Z 4 /\
    Permutation [3; 1; 0; 2]%nat (seq 0 4) /\
    option_map (count_nat 2) (sus_q [1#2; 0; 3; 3#2] [2; 3; 0; 1]%nat 4 (1#4) [3; 1; 0; 2]%nat) = Some 3%nat) /\
   (* tiled: 3 options, 7 samples, remainder draw [2] *)
@@ -176,7 +249,7 @@ Example C17_hyps_satisfiable :
 Proof.
   split; [|split; [|split]].
   - split; [repeat constructor; apply Qle_bool_iff; reflexivity|]. split; [reflexivity|].
-    split; [apply is_perm_sound; reflexivity|]. split; [apply Qle_bool_iff; reflexivity|]. split; [reflexivity|].
+    split; [apply is_perm_sound; reflexivity|]. split; [vm_compute; reflexivity|]. split; [apply Qle_bool_iff; reflexivity|]. split; [reflexivity|].
     split; [apply is_perm_sound; reflexivity | vm_compute; reflexivity].
   - split; [repeat constructor; intros []|]. split; [reflexivity | apply is_perm_sound; reflexivity].
   - vm_compute. reflexivity.
@@ -184,21 +257,33 @@ Proof.
 Qed.
 
 (** non-vacuity of the binary64 theorems: weights [1;2;1], k = 4, offset 0.25 — cumulative sums exact, pointers sorted and in
-    the cells of the ideal pointers; the general counting theorem's hypotheses hold for its cumulative sums and pointers *)
+    the cells of the ideal pointers; the general counting theorem's hypotheses hold for its cumulative sums and pointers, the hypotheses of the zero-weight theorem for its weights *)
 Example C17_float_hyps_satisfiable :
   let p := [1%float; 2%float; 1%float] in let order := [1; 0; 2]%nat in let k := 4%nat in let off := 0.25%float in
-  let pq := map f2q p in let cs := cumsum (gather 0 pq order) in
-  Forall2 Qeq (map f2q (fcumsum (gather 0%float p order))) cs /\ 0 <= sumQ pq / inject_Z (Z.of_nat k) /\
+  let pq := map f2q p in let cs := firstn (npos pq) (cumsum (gather 0 pq order)) in
+  Forall (fun x => 0 <= x) pq /\ 0 < sumQ pq /\ nonincr (gather 0 pq order) = true /\
+  Forall2 Qeq (map f2q (fcumsum (gather 0%float p order))) (cumsum (gather 0 pq order)) /\ 0 <= sumQ pq / inject_Z (Z.of_nat k) /\
   StronglySorted Qle (map f2q (sus_ptrs_f (fsum p) k off)) /\ StronglySorted Qle cs /\
   Forall2 (fun a b => locate cs a = locate cs b) (map f2q (sus_ptrs_f (fsum p) k off)) (sus_ptrs_q (sumQ pq) k (f2q off)) /\
   sus_f p order k off [3; 2; 1; 0]%nat = Some [2; 0; 1; 1]%nat.
 Proof.
-  cbv zeta. split; [vm_compute; repeat constructor|]. split; [apply Qle_bool_iff; vm_compute; reflexivity|].
+  cbv zeta. split; [repeat constructor; apply Qle_bool_iff; vm_compute; reflexivity|]. split; [apply Qlt_alt; vm_compute; reflexivity|].
+  split; [vm_compute; reflexivity|].
+  split; [vm_compute; repeat constructor|]. split; [apply Qle_bool_iff; vm_compute; reflexivity|].
   split; [match goal with |- StronglySorted Qle ?l => let l' := eval vm_compute in l in change (StronglySorted Qle l') end;
           repeat constructor; apply Qle_bool_iff; reflexivity|].
   split; [match goal with |- StronglySorted Qle ?l => let l' := eval vm_compute in l in change (StronglySorted Qle l') end;
           repeat constructor; apply Qle_bool_iff; reflexivity|].
   split; [|vm_compute; reflexivity].
-  match goal with |- Forall2 _ ?a ?b => let a' := eval vm_compute in a in let b' := eval vm_compute in b in change (Forall2 (fun x y => locate (cumsum (gather 0 (map f2q [1%float; 2%float; 1%float]) [1; 0; 2]%nat)) x = locate (cumsum (gather 0 (map f2q [1%float; 2%float; 1%float]) [1; 0; 2]%nat)) y) a' b') end.
+  match goal with |- Forall2 _ ?a ?b => let a' := eval vm_compute in a in let b' := eval vm_compute in b in change (Forall2 (fun x y => locate (firstn (npos (map f2q [1%float; 2%float; 1%float])) (cumsum (gather 0 (map f2q [1%float; 2%float; 1%float]) [1; 0; 2]%nat))) x = locate (firstn (npos (map f2q [1%float; 2%float; 1%float])) (cumsum (gather 0 (map f2q [1%float; 2%float; 1%float]) [1; 0; 2]%nat))) y) a' b') end.
   repeat constructor.
 Qed.
+
+(** non-vacuity and tightness of [C17_sus_float_within_one]: its numerical hypotheses hold for the floor/ceiling
+    counterexample p = [1,1], k = 98, offset 0.0, whose counts 50 and 48 are exactly ceiling + 1 and floor - 1 *)
+Example C17_within_one_hyps_satisfiable :
+  sus_near [1%float; 1%float] [1; 0]%nat 98 0%float = true /\
+  option_map (fun sel => (count_nat 1 sel, count_nat 0 sel)) (sus_f [1%float; 1%float] [1; 0]%nat 98 0%float (seq 0 98)) = Some (50, 48)%nat /\
+  Qceiling (nth 1 (map f2q [1%float; 1%float]) 0 * inject_Z 98 / sumQ (map f2q [1%float; 1%float])) = 49%Z /\
+  Qfloor (nth 0 (map f2q [1%float; 1%float]) 0 * inject_Z 98 / sumQ (map f2q [1%float; 1%float])) = 49%Z.
+Proof. repeat split; vm_compute; reflexivity. Qed.
